@@ -52,7 +52,7 @@ fn static_eval_rq_operator(mut expr: Expr) -> Expr {
                 (&args[0].kind, &args[1].kind)
             {
                 // don't eval comparisons between different types of literals
-                if left.as_ref() == right.as_ref() {
+                if left.as_ref() == right.as_ref() && has_value_equality(left) {
                     return Expr::new(Literal::Boolean(left == right));
                 }
             }
@@ -62,7 +62,7 @@ fn static_eval_rq_operator(mut expr: Expr) -> Expr {
                 (&args[0].kind, &args[1].kind)
             {
                 // don't eval comparisons between different types of literals
-                if left.as_ref() == right.as_ref() {
+                if left.as_ref() == right.as_ref() && has_value_equality(left) {
                     return Expr::new(Literal::Boolean(left != right));
                 }
             }
@@ -95,6 +95,16 @@ fn static_eval_rq_operator(mut expr: Expr) -> Expr {
     };
     expr.kind = ExprKind::RqOperator { name, args };
     expr
+}
+
+/// Literals whose equality is the equality of what is written: two dates, times, timestamps or
+/// intervals can be written differently and be equal (`@10:00` and `@10:00:00`, a time zone offset,
+/// `1days` and `24hours`), and whether two strings are equal is up to the collation of the database.
+fn has_value_equality(literal: &Literal) -> bool {
+    matches!(
+        literal,
+        Literal::Integer(_) | Literal::Float(_) | Literal::Boolean(_)
+    )
 }
 
 fn static_eval_case(mut expr: Expr) -> Expr {
